@@ -405,6 +405,17 @@ impl Prop for C08 {
                 // the direction clause presupposes a single root in the step (with several, which one
                 // a root finder returns is unspecified): sample g on the bracketing step and skip
                 // the clause when more than one sign change is visible
+                // (two reported events of this function closer than root-finder accuracy: the event
+                // function has several roots inside one accuracy window - rounding-level wobble of
+                // a state around its threshold - and the precondition fails whatever the step grid)
+                {
+                    let dw = 4e-12 + 8.0 * EPS * t.abs();
+                    // (the same time twice is one root seen from both adjacent steps, not two roots)
+                    if te.iter().any(|&t2| t2.to_bits() != t.to_bits() && (t2 - t).abs() <= dw) {
+                        cov.bump("multi_root_window_direction_clause_skipped");
+                        continue;
+                    }
+                }
                 if !endpoints_known && !matches!(e.kind, EvKind::Time { .. }) {
                     // the accepted grid is not observable (first_step filtering, or a terminal stop
                     // whose event point merged with a step end): only a function with a single
